@@ -12,7 +12,7 @@ Extraction "widen.ml"
   nonempty_sys incl_sys equiv_sys sys_of_cons union_sys cons_of_gens dd_pair empty_sys false_sys
   bhrz03_compare bhrz03_compare_ph bhrz03_is_stabilizing bhrz03_ok bhrz03_grows_b bhrz03_of
   h79_compare h79_compare_ph h79_is_stabilizing h79_grows_b h79_of
-  grid_compare grid_is_stabilizing
+  grid_compare grid_compare_gr grid_is_stabilizing grid_of
   entails_b limited_ref tok_keeps_x tok_after
   ms_insert ms_of_list ms_stabilizing.
 Cd "../../coq".
